@@ -178,16 +178,18 @@ def run(check):
             if len(check.samples) < 3:
                 check.sample({"lang": lang, "multi_file": multi, "files": [f["rel"] for f in files], "orders_tried": len(envs),
                               "distinct_outputs": len(seen)})
-    if not check.violations:
+    if not check.has_failing():
         import_mix_part(check)
-    if not check.violations:
+    if not check.has_failing():
         ambiguous_part(check)
-    if not check.violations:
+    if not check.has_failing():
         duplicate_names_part(check)
-    if not check.violations:
+    if not check.has_failing():
         overlap_part(check)
-    if not check.violations:
+    if not check.has_failing():
         generic_names_part(check)
+    if not check.has_failing():
+        layout_part(check)
     check.assumptions += ["a schedule is abstracted to an arrival order of per-file results plus hash iteration orders; real races inside ignore/crossbeam are realised only through the collector hook and repeated runs",
                           "the walker delivers every visible *.rs file exactly once (ignore crate, external)"]
 
@@ -469,6 +471,43 @@ def overlap_part(check):
                             case={"lang": lang, "multi_file": multi, "files": {f["rel"]: render_file(f["file"]) for f in files},
                                   "directories": [os.path.relpath(d, sc.dir) for d in dirs], "env_a": e1, "env_b": e2},
                             impl={"a": o1, "b": o2}, failing_input=True)
+            return
+
+
+LAYOUT_DIRS = ["target", "build", "out", "dist", "tests", "examples", "benches", "vendor", "node_modules", "tools", "typeshare", "gen",
+               "generated", "tmp", "bin", "debug", "release", "src", "core", "Target", "target_os"]
+
+
+def layout_part(check):
+    """the same items, differently spread over files and directories: in single-file mode the output depends only on the items.
+    Every source file is once a flat `src/<k>.rs` and once `src/<dir>/mod.rs` (resp. `src/<dir>/<k>.rs`) under directory names
+    that build tools like to treat specially (`target`, `build`, `vendor`, `node_modules`, `tools`, ...; only `tools/typeshare` is a
+    documented exclusion of the walker and is not used)"""
+    rng = check.rng
+    for t in range(6 if check.thorough else 3):
+        lang = LANGS[(t * 5 + 1) % 6]
+        files, g = make_tree(rng, rng.randint(3, 6), False, with_consts=False)
+        texts = [render_file(f["file"]) for f in files]
+        first = ["target", "build", "node_modules", "vendor", "out", "dist"][t % 6]
+        dirs = [first] + rng.sample([d for d in LAYOUT_DIRS if d != first], len(texts) - 1)
+        outs = {}
+        with Scratch() as sc:
+            for layout in ("flat", "dirs-mod", "dirs-file"):
+                root = "ws_" + layout
+                for k, (text, d) in enumerate(zip(texts, dirs)):
+                    rel = {"flat": "src/m%d.rs" % k, "dirs-mod": "src/%s/mod.rs" % d, "dirs-file": "src/%s/inner/m%d.rs" % (d, k)}[layout]
+                    sc.write("%s/crate_a/%s" % (root, rel), text)
+                out = sc.path("out_%s.%s" % (layout, EXT[lang]))
+                r = run_cli(["--lang", lang, "-o", out] + lang_args(lang) + [sc.path(root)], cwd=sc.dir)
+                outs[layout] = (r["rc"], open(out, encoding="utf-8").read() if os.path.exists(out) else None)
+                check.saw(("layout", t, layout, lang), nontrivial=True)
+                check.count("layout-" + layout)
+        if len({v for v in outs.values()}) > 1:
+            a, b = [k for k in outs if outs[k] != outs["flat"]][:1] + ["flat"]
+            check.violation("%s single-file output changes when the same source files are placed in the directories %s instead of flat "
+                            "(%s: exit %s; flat: exit %s)" % (lang, dirs, a, outs[a][0], outs[b][0]),
+                            case={"lang": lang, "sources": texts, "directories": dirs, "layout": a},
+                            impl={a: outs[a][1], "flat": outs["flat"][1]}, failing_input=True)
             return
 
 
